@@ -33,3 +33,46 @@ check("C11",
       text="Input-space enumeration: every string of <= 6 (quick, 67M strings) / <= 7 (thorough, 1.3G) tokens of a 20-token alphabet (mnemonics, registers, separators, parentheses, decimal and overflowing numbers, colon, hash, newline, tab) and every single-edit mutant / metamorphic variant of 11 well-formed programs is parsed by the rebuilt risc.Parse; no panic is tolerated; for accepted text the instruction count and label map are compared with an independent line classifier and every readable instruction line must decode to the same instruction as its canonical rendering; variants (blank/comment lines, indentation, trailing blanks/comments, mnemonic case) must parse to a result equal to the base program's.",
       note="Strings are over a token alphabet, not arbitrary bytes; the label-line definition (no space, trailing colon) is part of the oracle; meaning of canonical renderings is delegated to C02.",
       ref="DESIGN.md §2 C11")
+
+PXNOTE = "Runs the real variants rebuilt from /repo with the loop/cycle/map-order instrumentation of the overlay; instruction effects of the reference come from the repo's own InstructionRunner.Run (validated by C02), sequencing and memory are the reference's own. Known findings are matched per exact case (configuration, program, initial state, failure class); see known_findings.json."
+
+check("C01",
+      technique="bounded-exhaustive program-space exploration (all programs up to length 2/3 over a 33-template alphabet x 33 configurations) against a sequential reference interpreter",
+      text="Bounded exhaustive exploration of the real processors: every program of length <= 2 (quick) / <= 3 (thorough) over the general alphabet and of length 3 / 4 over the core alphabet, closed by an epilogue, x 2 / 4 initial states x all 33 configurations (12 variants, parallelism 1..4) is executed and compared (registers x1..x31, whole memory, no error/panic/hang) with a sequential reference interpreter. The defects this code base can have are shape defects (WAW pair, store in a branch shadow, load after store to a line) that fit in 3-4 instructions, so a complete small scope decides what seven skeleton tests cannot.",
+      note=PXNOTE, ref="DESIGN.md §2 C01")
+check("C03",
+      technique="bounded-exhaustive enumeration of branch shadows (all sequences up to length 2/3 over 13 templates) with a differential nop-shadow oracle on the real pipelines",
+      text="Every pre x branch x shadow x post program (4 pre-states, 10 branch/jump/ret forms, every shadow sequence of length 1..2 quick / 1..3 thorough over 13 templates incl. stores, out-of-bounds loads, jal/jalr with link, div by zero, nested branch, ret) is run on MVP-4..8 x parallelism 1..4 and must be indistinguishable (outcome class, registers, memory) from the same program whose shadow is nops, whenever the sequential reference skips the shadow.",
+      note=PXNOTE + " Differential oracle: defects that hit the nop twin identically are attributed to C01, not C03.", ref="DESIGN.md §2 C03")
+check("C04",
+      technique="bounded-exhaustive enumeration of register-reuse sequences (length <= 3/4 full, 4/5 core) x cache pre-states x 30 configurations against the sequential reference",
+      text="Every sequence over the 12-template register-pressure alphabet (chains, fans, WAW, WAR, mixed-latency producers via loads that miss/hit) up to length 3 (quick) / 4 (thorough), plus length 4 / 5 over an 8-template core, x {cold, warm} caches on MVP-4..8 x parallelism 1..4; oracle: every register ends with the value of its last writer in program order and late readers (stores) saw program-order values. Dispatch interleavings are those the real control units produce; map-order schedules are explored by C08 on the same machinery.",
+      note=PXNOTE, ref="DESIGN.md §2 C04")
+check("C05",
+      technique="bounded-exhaustive enumeration of load/store sequences incl. eviction sweeps x 31 configurations against a flat-memory reference",
+      text="Every sequence of length <= 3 (quick) / <= 4 (thorough) over an 18-template memory alphabet (byte/half/word at line-relative offsets 0,2,4,60,62,63 of three lines) plus 17/33-line read/write sweep macros (more lines than L1 / L3 ways) with one access before and after, on MVP-3..8 x parallelism 1..4; oracle: all loaded values (copied to result slots) and the whole final memory image equal a flat-memory reference, i.e. nothing is left behind in a cache.",
+      note=PXNOTE, ref="DESIGN.md §2 C05")
+check("C06",
+      technique="exhaustive enumeration of timed request schedules on the real cache controllers + MSI directory (rig), invariants checked after every controller cycle; same invariant monitor at every cycle of whole-pipeline runs",
+      text="Protocol rig: for MVP-7.0/7.1/8 every schedule of 2 read/write requests from 2-3 cores on 2 lines at every issue offset (0..340 quick / 0..700 thorough), 3 requests on a phase-boundary grid, pre-filled L1 (capacity eviction) and request/flush/request schedules is driven into the real controllers in CPU.Run's order; after every cycle the statement's invariants (single writer, Shared == next level, residency <=> state outside transfers, no duplicate/unaligned lines, non-negative lock counters) are evaluated on a snapshot and completed reads are compared with a sequentially consistent memory. The same invariant function runs at every cycle boundary of whole-pipeline runs of all load/store/branch programs up to length 3/4 and of sweep programs on 1..4 cores.",
+      note="Snapshots read private fields through files added by the build overlay (a rename breaks the build: BUILD-ERROR, not a violation). The controllers' coroutine closures cannot be hashed, so the enumeration is stateless (schedules, not states). Flush events follow the pipeline's own discipline.", ref="DESIGN.md §2 C06")
+check("C07",
+      technique="bounded-exhaustive program-space exploration with a cycle/tick budget turning hangs into verdicts, incl. all error-reaching programs of the alphabet",
+      text="The C01 general program set plus every prefix (length <= 1 quick / <= 2 thorough) followed by div/rem by zero or a jump to an undefined label, on all 33 configurations: the run must return (no Go panic, no deadlock of the forwarding channels, cycle boundaries within 309*(8n+120) for n executed instructions, enforced by the injected cycle budget) and return an error value exactly when the reference reaches a defined error.",
+      note=PXNOTE + " The cycle bound is the property's own bound, so an abort is a violation, never merely 'slow'.", ref="DESIGN.md §2 C07")
+check("C08",
+      technique="deviation-bounded exploration of map-iteration orders on the real variants, exhaustive schedule exploration of the iterator goroutines under a cooperative scheduler, history and two-machine interleaving enumeration",
+      text="(i) every execution deviating at <= 1 (quick) / <= 2 (thorough) map-range choice points from the canonical order, for 57 + 64/320 target programs x configurations, must be bit-identical (cycles, registers, memory) to the default; (ii) every interleaving (unbounded preemptions) of comp.Queue.Iterator / ds.StableMapIteration producers with removing / abandoning / pushing consumers delivers the FIFO / sorted sequence without deadlock; (iii) Y after X, Y on a machine built while X's is alive and Y twice on one parsed program equal Y alone in a fresh OS process for all ordered pairs of 11/31 programs x 33 configurations; (iv) two machines interleaved at cycle boundaries with <= 1 preemption (separate and shared parsed programs) each equal their solo run.",
+      note="Every `range` over a map is rewritten by the instrumenter to iterate a canonical order permuted by a recorded choice; goroutine/channel operations of the two iterators are emulated by the cooperative scheduler (hand-rolled, verifrt). The Go memory model itself is not explored.", ref="DESIGN.md §2 C08")
+check("C09",
+      technique="bounded-exhaustive enumeration of program tails before ret / end of program x 30 configurations against the sequential reference",
+      text="body ; tail ; EXIT [; junk] with every tail of length 1..2 (quick) / 1..3 (thorough) over 10 templates (missing/hitting loads, stores to cached/uncached lines, dependent chains, load-use), EXIT in {ret, falling off the end}, junk after ret in 4 forms, on MVP-4..8 x parallelism 1..4; oracle: registers and memory equal the sequential reference: everything older than the exit has taken effect, nothing younger has.",
+      note=PXNOTE, ref="DESIGN.md §2 C09")
+check("C10",
+      technique="bounded-exhaustive enumeration of load/store sequences with independent address registers x cache pre-states x 30 configurations against the sequential reference",
+      text="Every sequence of length <= 3 (quick) / <= 4 (thorough) over 11 templates (stores/loads to the same byte, word and line through two independent base registers, another line, an ALU op, nop) x {cold, warm} on MVP-6.0..8 x parallelism 1..4 and MVP-4/5; so every store->load, load->store and store->store pair at every distance within the bound occurs with no register dependence; oracle: loaded values and final memory equal the reference.",
+      note=PXNOTE, ref="DESIGN.md §2 C10")
+check("C12",
+      technique="bounded-exhaustive program-space exploration checking an analytic latency model (MVP-1 exact) and relational cycle properties across all configurations and initial-state pairs",
+      text="For every program of the C01 general set x 6 initial states x 33 configurations: MVP-1's returned cycles equal the latency-table model computed from the reference trace; MVP-2 <= MVP-1; cycles > 0 and >= ceil(n/width); and for every pair of initial states with identical reference pc and address sequences the cycle counts are equal (value independence).",
+      note=PXNOTE + " Only executions with a correct architectural result take part, so C01 findings do not resurface here.", ref="DESIGN.md §2 C12")
